@@ -138,6 +138,31 @@ func oracleFor(op *Sexp, res string) []string {
 		if fields[3] != strconv.FormatInt(v, 10) || fields[4] != strconv.Itoa(len(ref)) {
 			bad("ReadVarInt(append(%d)) = (%s,%s)", v, fields[3], fields[4])
 		}
+	case "bq":
+		// size = appended bytes (both forms), tagged = tag ++ body, body = flat varint of the microseconds,
+		// read back = the time at microsecond resolution, consuming exactly the body
+		sec, _ := strconv.ParseInt(arg(1), 10, 64)
+		nsec, _ := strconv.ParseInt(arg(2), 10, 64)
+		tag, _ := unhx(arg(3))
+		if len(fields) != 9 {
+			return []string{"malformed result " + res}
+		}
+		if sec > 9223372036853 || sec < -9223372036853 {
+			return nil // the microsecond count does not fit int64 (time.UnixMicro: undefined): model comparison only
+		}
+		body := refVarint(uint64(sec*1000000 + nsec/1000))
+		if fields[3] != hx(body) {
+			bad("body %s, want the flat varint of the microsecond count %s", fields[3], hx(body))
+		}
+		if fields[1] != hx(append(append([]byte(nil), tag...), body...)) {
+			bad("tagged form %s is not tag ++ body", fields[1])
+		}
+		if fields[0] != strconv.Itoa(len(tag)+len(body)) || fields[2] != strconv.Itoa(len(body)) {
+			bad("Size %s / %s, appended %d / %d", fields[0], fields[2], len(tag)+len(body), len(body))
+		}
+		if want := fmt.Sprintf("ok %d %d %d", sec, nsec/1000*1000, len(body)); strings.Join(fields[5:], " ") != want {
+			bad("read back %q, want %q", strings.Join(fields[5:], " "), want)
+		}
 	case "varucap":
 		v, _ := atoiU(arg(1))
 		pre, _ := atoiU(arg(2))
